@@ -24,6 +24,8 @@ type boundsCtx struct {
 	depth   int
 	// valMin: lower bound on len(v) for specific SSA values (call-site summaries)
 	valMin func(v ssa.Value) (int64, bool)
+	// facts that depend on path conditions (e.g. x % l is in [0,l) once l >= 1 is known)
+	deferred []func(z *Zone)
 }
 
 func newBoundsCtx(p *Prog, fn *ssa.Function) *boundsCtx {
@@ -118,14 +120,16 @@ func (bc *boundsCtx) term(v ssa.Value) lterm {
 					bc.z.addLE(lconst(-(m - 1)), me)
 				}
 			} else {
-				// a % l with l > 0 unknown: |result| < l
+				// a % l with l > 0: |result| < l; decided once the path conditions are known
 				a, l := bc.term(x.X), bc.term(x.Y)
-				if bc.z.entLE(lconst(1), l) {
-					bc.z.addLT(me, l)
-					if bc.z.entLE(lconst(0), a) {
-						bc.z.addLE(lconst(0), me)
+				bc.deferred = append(bc.deferred, func(z *Zone) {
+					if z.entLE(lconst(1), l) {
+						z.addLT(me, l)
+						if z.entLE(lconst(0), a) {
+							z.addLE(lconst(0), me)
+						}
 					}
-				}
+				})
 			}
 			return me
 		case token.AND:
@@ -466,6 +470,9 @@ func (bc *boundsCtx) zoneAt(b *ssa.BasicBlock, extra ...lterm) *Zone {
 	for i := 0; i < 2; i++ { // twice: NEQ refinement may need facts added later
 		for _, f := range conds {
 			bc.apply(z, f)
+		}
+		for _, d := range bc.deferred {
+			d(z)
 		}
 	}
 	return z
